@@ -950,10 +950,18 @@ impl BytecodeVM {
     /// This method runs until a terminal state is reached. For step-by-step control,
     /// use the `step()` method instead.
     pub fn run(&mut self, interp: &mut Interpreter) -> VmResult {
+        // A run to completion nests on the native stack (generator resumption, eval, functions
+        // called from natives): too deep a nesting is a RangeError, not a stack overflow
+        if let Err(e) = interp.enter_native_recursion() {
+            return VmResult::Error(e);
+        }
         loop {
             match self.step(interp) {
                 VmStepResult::Continue => continue,
-                VmStepResult::Terminal(result) => return *result,
+                VmStepResult::Terminal(result) => {
+                    interp.leave_native_recursion();
+                    return *result;
+                }
             }
         }
     }
@@ -1058,7 +1066,9 @@ impl BytecodeVM {
                 let bound_this = bound.this_arg.clone();
                 let mut full_args = bound.bound_args.clone();
                 full_args.extend(args);
-                self.setup_trampoline_call(
+                // (a chain of bound functions unwraps recursively)
+                interp.enter_native_recursion()?;
+                let result = self.setup_trampoline_call(
                     interp,
                     CallParams {
                         callee: target,
@@ -1068,7 +1078,9 @@ impl BytecodeVM {
                         new_target,
                         is_super_call,
                     },
-                )
+                );
+                interp.leave_native_recursion();
+                result
             }
             JsFunction::BytecodeGenerator(bc_func) => {
                 // Generators just create a generator object without running the body.
@@ -1220,7 +1232,8 @@ impl BytecodeVM {
                 let target = JsValue::Object(bound.target.cheap_clone());
                 let mut full_args = bound.bound_args.clone();
                 full_args.extend(args);
-                self.setup_trampoline_construct(
+                interp.enter_native_recursion()?;
+                let result = self.setup_trampoline_construct(
                     interp,
                     target,
                     this_value,
@@ -1228,7 +1241,9 @@ impl BytecodeVM {
                     return_register,
                     new_target,
                     new_obj,
-                )
+                );
+                interp.leave_native_recursion();
+                result
             }
             // For all other function types, fall back to the interpreter's call_function
             // and handle the object/non-object return value
